@@ -42,6 +42,7 @@ def check(ctx):
     r15_5(ctx, g)
     r15_6(ctx, g)
     r15_7(ctx, g)
+    r15_8(ctx, g)
     ctx.not_decided += [
         "that all_components / find_component partition the nodes into the true connected components",
         "that biccs returns exactly the biconnected components and articulation points (algorithmic exactness; only the edge-stack discipline is decided)",
@@ -447,3 +448,74 @@ def r15_7(ctx, g):
         src = norm(nb.node)
         ok = "self.start" in src and "self.end" in src
         ctx.check(ok, "R15.7", nb.where(), "Node.neighbors merges the neighbours recorded at both sides", "gaftools.gfa.Node.neighbors::both-sides")
+
+
+def r15_8(ctx, g):
+    """Structural necessary conditions of the traversals (not their exactness): all_components starts a search from
+    every unvisited node and resets the visited flags afterwards; find_component / dfs expand Node.neighbors() (both
+    sides) of every node they take from the work list and add every such node to the result exactly once."""
+    repo = ctx.repo
+    ac = repo.func("gaftools.gfa", "GFA.all_components", "R15.8")
+    fc = repo.func("gaftools.gfa", "GFA.find_component", "R15.8")
+    dfs = repo.func("gaftools.gfa", "GFA.dfs", "R15.8")
+    for f in (ac, fc, dfs):
+        ctx.analysed_func(f)
+    # all_components
+    loops = [l for l in ac.node.body if isinstance(l, ast.For)]
+    ok = False
+    if loops:
+        l = loops[0]
+        it_ok = norm(l.iter) in ("self.nodes", "self.nodes.keys()", "list(self.nodes)")
+        calls = [c for c in ast.walk(l) if isinstance(c, ast.Call) and isinstance(c.func, ast.Attribute) and c.func.attr == "find_component" and norm(c.args[0]) == norm(l.target)]
+        from .c09 import guards_of
+
+        guarded = bool(calls) and any(canon_test(t, pol) == (f"self.nodes[{norm(l.target)}].visited", False) for t, pol in guards_of(ac.node, _stmt_with(ac, calls[0])))
+        after = ac.node.body[ac.node.body.index(l) + 1 :]
+        reset = any(isinstance(st, ast.Expr) and norm(st.value) in ("self.set_visited(False)", "self.set_visited()", "self.set_visited(visited=False)") for st in after)
+        appended = any(isinstance(c, ast.Call) and isinstance(c.func, ast.Attribute) and c.func.attr == "append" and any(x is calls[0] for x in ast.walk(c)) for c in ast.walk(l)) if calls else False
+        ok = it_ok and guarded and reset and appended
+    ctx.check(ok, "R15.8", ac.where(), "all_components searches from every node that is still unvisited, collects each result, and resets the visited flags afterwards (a second call sees a clean graph)", key_of(ac, "all-components-shape"))
+    # find_component / dfs: pop -> add to result once -> expand neighbors()
+    for f, res_kind in ((fc, "set"), (dfs, "list")):
+        wl = [l for l in f.node.body if isinstance(l, ast.While)]
+        if not wl:
+            raise AnalysisError("R15.8", f.where(), "no work-list loop")
+        w = wl[0]
+        pops = [st for st in w.body if isinstance(st, ast.Assign) and isinstance(st.value, ast.Call) and isinstance(st.value.func, ast.Attribute) and st.value.func.attr in ("pop", "popleft")]
+        if len(pops) != 1:
+            raise AnalysisError("R15.8", f.where(w), "work-list loop does not take exactly one node per iteration")
+        cur = norm(pops[0].targets[0])
+        work = norm(pops[0].value.func.value)
+        nb_calls = [c for c in ast.walk(w) if isinstance(c, ast.Call) and isinstance(c.func, ast.Attribute) and c.func.attr == "neighbors" and cur in norm(c.func.value)]
+        pushes = [c for c in ast.walk(w) if isinstance(c, ast.Call) and isinstance(c.func, ast.Attribute) and c.func.attr == "append" and norm(c.func.value) == work]
+        exp_loops = [l for l in ast.walk(w) if isinstance(l, ast.For) and any(x is p_ for p_ in pushes for x in ast.walk(l))]
+        src_ok = False
+        if exp_loops:
+            it = exp_loops[0].iter
+            src = norm(it)
+            if isinstance(it, ast.Name):
+                d = [st for st in w.body if isinstance(st, ast.Assign) and norm(st.targets[0]) == it.id]
+                src = norm(d[-1].value) if d else src
+            src_ok = src.endswith(".neighbors()") and cur in src and pushes and norm(pushes[0].args[0]) == norm(exp_loops[0].target)
+        paths = enum_paths(w.body, rule="R15.8", where=f.where(w))
+        rets = [r for r in f.node.body if isinstance(r, ast.Return) and isinstance(r.value, ast.Name)]
+        if not rets:
+            raise AnalysisError("R15.8", f.where(), "the traversal does not return a named collection")
+        result = rets[-1].value.id
+        bad = None
+        for p in paths:
+            adds = [e for e in p.events if e.kind == "stmt" and isinstance(e.node, ast.Expr) and isinstance(e.node.value, ast.Call) and isinstance(e.node.value.func, ast.Attribute) and e.node.value.func.attr in ("add", "append") and norm(e.node.value.args[0]) == cur and norm(e.node.value.func.value) == result]
+            expanded = any(e.kind == "loop" and any(e.node is l for l in exp_loops) for e in p.events)
+            if expanded and not adds:
+                bad = (p, "a node is expanded without being added to the result")
+            if adds and not expanded and p.term in ("fall", "loopback", "continue"):
+                bad = (p, "a node is added to the result but its neighbours are not expanded")
+        ctx.check(src_ok and bool(nb_calls) and bad is None, "R15.8", f.where(w), f"{f.name}: every node taken from the work list is added to the result once and all its neighbours (both sides, Node.neighbors()) are pushed", key_of(f, f"traversal-shape:{bad[1] if bad else src_ok}"), **({"path": bad[0].show(), "why": bad[1]} if bad else {}))
+
+
+def _stmt_with(f, node):
+    best = None
+    for st in walk_stmts(f.node.body):
+        if any(x is node for x in ast.walk(st)) and not isinstance(st, (ast.For, ast.While, ast.If, ast.Try, ast.With)):
+            best = st
+    return best
